@@ -55,10 +55,10 @@ TRUSTED_EXTRA = [
 ]
 MANIFEST = {
     "level_text": "PARTIAL. C02 itself (no non-Guppy exception escapes check/compile for any program) is NOT proved; it is SEARCHED: "
-    "thousands (quick) / ~10^5 (thorough) programs per run through the real check()+lowering - /repo's ~480 tests/error programs and "
+    "~10^4 (quick) / ~2.4*10^5 (thorough) programs per run through the real check()+lowering - /repo's ~480 tests/error programs and "
     "~560 integration tests harvested and run against /repo's own sources, AST mutants of them, generated functions and mutants, a "
-    "std-call sweep - with crash / unrenderable diagnostic / span outside the program / hang as failing inputs (13 such crashes were found "
-    "this way and fixed in 10 commits; their witnesses are re-run first). What Lean proves: (a) inventory theorems over a table regenerated "
+    "std-call sweep - with crash / unrenderable diagnostic / span outside the program / hang as failing inputs (19 such crashes were found "
+    "this way and fixed in 16 commits; their witnesses are re-run first). What Lean proves: (a) inventory theorems over a table regenerated "
     "from /repo's sources on every run: every assert / raise InternalGuppyError / non-Guppy raise / assert_never / zip(strict) / local-dict "
     "subscript in the 8 anchored checker files is classified in the committed Spec (`sites_classified`, `id_lists_faithful`, "
     "`classification_functional`), so a NEW site breaks the proof; 20 of 120 sites are `guarded` by an existing theorem (C08 "
@@ -295,8 +295,8 @@ def _search(ctx, scale: float = 1.0):
             [i for i in idx if not c02_run.POOL[i][0].startswith("error/")], 150)
     for k in range(procs):
         batches.append(("plain", rng.randrange(1 << 30), 0, idx[k::procs]))
-    n_h = int(ctx.n(4000, 180000) * scale)
-    n_g = int(ctx.n(2000, 70000) * scale)
+    n_h = int(ctx.n(3200, 130000) * scale)
+    n_g = int(ctx.n(1600, 50000) * scale)
     per = 400
     for _ in range(max(1, n_h // per)):
         batches.append(("harvest", rng.randrange(1 << 30), per, None))
@@ -305,7 +305,7 @@ def _search(ctx, scale: float = 1.0):
     combos = [(i, a, f) for i in range(len(c02_run.SWEEP)) for a in range(len(c02_run.SWEEP_ARGS))
               for f in range(len(c02_run.SWEEP_FORMS))]
     if quick:
-        combos = rng.sample(combos, int(2400 * scale))
+        combos = rng.sample(combos, int(2000 * scale))
     else:
         rng.shuffle(combos)
     chunk = 800
@@ -357,6 +357,22 @@ def _corpus(ctx):
                           {"program": src, "outcome": o, "corpus": name})
 
 
+def _guard_anchors(ctx):
+    """the guard theorems of other properties must exist: build Lemmas/C02Guards.lean (imports Props/C03, Props/C08)"""
+    with vlib.lake_lock():
+        p = vlib._run(["lake", "build", "GuppyVerif.Lemmas.C02Guards"], cwd=vlib.LEAN, timeout=3000)
+    out = p.stdout + p.stderr
+    if p.returncode == 0:
+        ctx.extra["guard_anchors"] = "ok: all guard theorems exist"
+    elif "error: GuppyVerif/Lemmas/C02Guards.lean" in out:
+        ctx.broke("a guard theorem named in Spec/C02.lean no longer exists: "
+                  + " | ".join(l for l in out.splitlines() if "C02Guards.lean" in l and "error" in l)[:400])
+    else:
+        bad = sorted({l.split(" ")[1] for l in out.splitlines() if l.startswith("- GuppyVerif.")})
+        ctx.extra["guard_anchors"] = ("NOT CHECKED in this run: modules of other properties do not build (work in progress elsewhere): "
+                                      + ", ".join(bad))
+
+
 def tie(ctx):
     # inventory coverage (reported, not hidden)
     cov = ctx.driver("C02", ["coverage"])[0].split(" ")
@@ -376,6 +392,7 @@ def tie(ctx):
     if new_sites:
         ctx.extra["unclassified_sites"] = new_sites
         ctx.broke("internal-failure sites not classified in Spec/C02.lean (new assert/raise/zip-strict/dict-subscript site): " + "; ".join(new_sites[:6]))
+    _guard_anchors(ctx)
     _corpus(ctx)
     _tie_models(ctx)
     _search(ctx)
